@@ -17,6 +17,7 @@
 //!   link <name> <target>           symbolic link in dir (target as given)
 //!   lockfile <name>                the driver holds an exclusive flock on that file of dir while jawk runs
 //!   (a file whose name ends in '/' is an empty directory)
+//!   fifohold                       the writers of the `fifo`s stay attached, silent, until the run is over (instead of closing at once)
 //!   wonce                          the write error is transient: one call fails, later calls are accepted (and counted)
 //!   wshort <n,n,..>                max bytes accepted per stdout write call, cycling
 //!   wintr <i,i,..>                 stdout write-call indices returning Interrupted
@@ -85,6 +86,7 @@ struct Case {
     ronce: bool,
     links: Vec<(Vec<u8>, Vec<u8>)>,
     lockfiles: Vec<Vec<u8>>,
+    fifohold: bool,
     wshort: Vec<usize>,
     wintr: Vec<usize>,
     efail: Option<usize>,
@@ -338,6 +340,12 @@ fn proc_rchar() -> u64 {
         .unwrap_or(0)
 }
 
+/// File names are bytes (they need not be UTF-8).
+fn osname(b: &[u8]) -> std::ffi::OsString {
+    use std::os::unix::ffi::OsStringExt;
+    std::ffi::OsString::from_vec(b.to_vec())
+}
+
 fn run_case(case: &Case) -> Obs {
     let mut lines = Vec::new();
     // scratch files
@@ -346,10 +354,11 @@ fn run_case(case: &Case) -> Obs {
     let mut fifo_flags: Vec<(std::path::PathBuf, Arc<AtomicBool>, Arc<AtomicBool>)> = Vec::new();
     let mut fifo_passed: Vec<Arc<AtomicBool>> = Vec::new();
     let mut efifo_stats: Vec<(Arc<AtomicU64>, Arc<AtomicBool>, Arc<AtomicBool>)> = Vec::new();
+    let fifo_release = Arc::new(AtomicBool::new(!case.fifohold));
     if let Some(dir) = &dir {
         let _ = std::fs::create_dir_all(dir);
         for (name, content) in &case.files {
-            let p = dir.join(String::from_utf8_lossy(name).to_string());
+            let p = dir.join(osname(name));
             if let Some(parent) = p.parent() {
                 let _ = std::fs::create_dir_all(parent);
             }
@@ -361,16 +370,16 @@ fn run_case(case: &Case) -> Obs {
             created.push(p);
         }
         for (name, target) in &case.links {
-            let p = dir.join(String::from_utf8_lossy(name).to_string());
+            let p = dir.join(osname(name));
             if let Some(parent) = p.parent() {
                 let _ = std::fs::create_dir_all(parent);
             }
             let _ = std::fs::remove_file(&p);
-            std::os::unix::fs::symlink(String::from_utf8_lossy(target).to_string(), &p).expect("symlink");
+            std::os::unix::fs::symlink(osname(target), &p).expect("symlink");
             created.push(p);
         }
         for name in &case.fifos {
-            let p = dir.join(String::from_utf8_lossy(name).to_string());
+            let p = dir.join(osname(name));
             let _ = std::fs::remove_file(&p);
             let st = std::process::Command::new("mkfifo").arg(&p).status().expect("mkfifo");
             assert!(st.success());
@@ -379,6 +388,7 @@ fn run_case(case: &Case) -> Obs {
             let passed = Arc::new(AtomicBool::new(false));
             {
                 let (p2, opened, probing, passed) = (p.clone(), opened.clone(), probing.clone(), passed.clone());
+                let release = fifo_release.clone();
                 std::thread::spawn(move || {
                     // blocks until somebody opens the FIFO for reading
                     let f = std::fs::OpenOptions::new().write(true).open(&p2);
@@ -386,6 +396,12 @@ fn run_case(case: &Case) -> Obs {
                         opened.store(true, Ordering::SeqCst);
                     }
                     passed.store(true, Ordering::SeqCst);
+                    // a silent writer: attached, writing nothing, until the run is over
+                    let t0 = Instant::now();
+                    while !release.load(Ordering::SeqCst) && t0.elapsed() < Duration::from_secs(120) {
+                        std::thread::sleep(Duration::from_millis(2));
+                    }
+                    drop(f);
                     // dropping f gives the reader EOF
                 });
             }
@@ -394,7 +410,7 @@ fn run_case(case: &Case) -> Obs {
             created.push(p);
         }
         for (name, e) in &case.efifos {
-            let p = dir.join(String::from_utf8_lossy(name).to_string());
+            let p = dir.join(osname(name));
             let _ = std::fs::remove_file(&p);
             let st = std::process::Command::new("mkfifo").arg(&p).status().expect("mkfifo");
             assert!(st.success());
@@ -416,7 +432,7 @@ fn run_case(case: &Case) -> Obs {
     let mut held_locks = Vec::new();
     if let Some(dir) = &dir {
         for name in &case.lockfiles {
-            if let Ok(f) = std::fs::OpenOptions::new().read(true).write(true).open(dir.join(String::from_utf8_lossy(name).to_string())) {
+            if let Ok(f) = std::fs::OpenOptions::new().read(true).write(true).open(dir.join(osname(name))) {
                 let _ = f.lock();
                 held_locks.push(f);
             }
@@ -551,6 +567,7 @@ fn run_case(case: &Case) -> Obs {
     if !hooks.is_empty() {
         lines.push(format!("hooks {hooks}"));
     }
+    fifo_release.store(true, Ordering::SeqCst);
     // FIFOs: release the blocked writer threads, report who opened what
     if kind != "timeout" {
         for (p, opened, probing) in &fifo_flags {
@@ -586,7 +603,7 @@ fn run_case(case: &Case) -> Obs {
                     let rd = std::fs::OpenOptions::new()
                         .read(true)
                         .custom_flags(0o4000)
-                        .open(dir.join(String::from_utf8_lossy(p).to_string()));
+                        .open(dir.join(osname(p)));
                     let t0 = Instant::now();
                     while !efifo_stats[i].1.load(Ordering::SeqCst) && t0.elapsed() < Duration::from_secs(5) {
                         std::thread::sleep(Duration::from_millis(1));
@@ -640,6 +657,7 @@ fn serve() {
             "ronce" => case.ronce = true,
             "link" => case.links.push((unhex(rest[0]), unhex(rest[1]))),
             "lockfile" => case.lockfiles.push(unhex(rest[0])),
+            "fifohold" => case.fifohold = true,
             "wshort" => case.wshort = ints(rest[0]),
             "wintr" => case.wintr = ints(rest[0]),
             "efail" => case.efail = Some(rest[0].parse().unwrap()),
